@@ -20,7 +20,7 @@ import (
 // before, at the very same virtual instant as, and after the call.
 
 type LStep struct {
-	Kind    string // accuse | update | sleep | leave
+	Kind    string // accuse | update | sleep | leave | suspect-peers (every peer becomes suspect in the node's view: still a member, still to be told)
 	Acc     string `json:",omitempty"` // suspect | dead | alive
 	IncD    int    `json:",omitempty"`
 	SleepMs int    `json:",omitempty"`
@@ -41,11 +41,13 @@ type LPlan struct {
 func genLPlan(t *rapid.T) LPlan {
 	p := LPlan{Seed: rapid.Uint64Range(1, 1<<40).Draw(t, "seed"), Peers: rapid.IntRange(0, 3).Draw(t, "peers")}
 	pre := rapid.SliceOfN(rapid.Custom(func(t *rapid.T) LStep {
-		switch rapid.IntRange(0, 3).Draw(t, "k") {
+		switch rapid.IntRange(0, 4).Draw(t, "k") {
 		case 0:
 			return LStep{Kind: "update"}
 		case 1:
 			return LStep{Kind: "sleep", SleepMs: rapid.SampledFrom([]int{1, 150, 1000}).Draw(t, "ms")}
+		case 4:
+			return LStep{Kind: "suspect-peers"}
 		}
 		return LStep{Kind: "accuse", Acc: rapid.SampledFrom([]string{"suspect", "dead", "alive"}).Draw(t, "acc"), IncD: rapid.IntRange(-1, 2).Draw(t, "incd")}
 	}), 0, 3).Draw(t, "pre")
@@ -157,6 +159,18 @@ func runL(pl LPlan) (res vfx.Result) {
 			p.Rec.SetMeta([]byte(fmt.Sprintf("v%d", metaV)))
 			go func() { _ = p.M.UpdateNode(time.Second) }() // may still be queued when Leave is called
 			time.Sleep(time.Millisecond)
+		case "suspect-peers":
+			if leftOK {
+				continue
+			}
+			var parts [][]byte
+			for _, pe := range peers {
+				parts = append(parts, puppet.Claim{Kind: "suspect", Node: pe.Name, Inc: 1, From: "acc"}.Leaf())
+			}
+			if len(parts) > 0 {
+				p.Inject(src, parts, puppet.Carrier{Kind: "compound"})
+				labels["peers-suspected-before-leave"] = true
+			}
 		case "accuse":
 			inc, _, err := ownInc()
 			if err != nil {
